@@ -1,5 +1,5 @@
 #!/bin/bash
-# cross_harmless.sh <name>: apply harmless/<name>/patch.diff to a fresh worktree of /repo HEAD and run EVERY integrated check on it;
+# cross_harmless.sh <name> ["Cxx Cyy"]: apply harmless/<name>/patch.diff to a fresh worktree of /repo HEAD and run EVERY integrated check on it;
 # every check must stay silent (a refactoring of one property's files often touches private names other harnesses look at)
 cd "$(dirname "$0")/.."
 name="$1"; wt=/tmp/xref_$name
@@ -7,6 +7,6 @@ git -C /repo worktree remove --force $wt 2>/dev/null
 git -C /repo worktree add --detach $wt HEAD -q || exit 2
 if ! git -C $wt apply "/verif/harmless/$name/patch.diff"; then echo "$name: patch does not apply to HEAD"; git -C /repo worktree remove --force $wt; exit 3; fi
 mkdir -p build/xref
-for p in $(cat harness/integrated.txt); do echo $p; done | xargs -P 5 -I{} bash -c "VERIF_NO_EVIDENCE=1 VERIF_REPO=$wt ./check {} > build/xref/${name}_{}.log 2>&1; echo \"{} rc=\$?\"" | grep -v "rc=0" | tr '\n' ' ' > build/xref/$name.summary
+for p in ${2:-$(cat harness/integrated.txt)}; do echo $p; done | xargs -P 5 -I{} bash -c "VERIF_NO_EVIDENCE=1 VERIF_REPO=$wt ./check {} > build/xref/${name}_{}.log 2>&1; echo \"{} rc=\$?\"" | grep -v "rc=0" | tr '\n' ' ' > build/xref/$name.summary
 git -C /repo worktree remove --force $wt
 echo "$name: non-silent: $(cat build/xref/$name.summary)"
